@@ -309,9 +309,9 @@ theorem exFiles_nodup : ∀ (dir : List Comp) (idx : Nat) (fs : List File), pwFi
     obtain ⟨g, k, hk, _, hx2⟩ := exFiles_ext dir _ t e2 he2
     refine Ext.ne2 hx1 hx2 (fun hc => ?_)
     have := decStr_inj _ _ hc
-    have hpos : 1 ≤ cntFile f := by
+    have hpos : 1 ≤ exCntFile f := by
       cases f with
-      | mk i b s => unfold cntFile; split <;> omega
+      | mk i b s => unfold exCntFile; split <;> omega
     omega
 theorem exFv_nodup : ∀ (dir : List Comp) (idx : Nat) (v : Fv), pwFv v = true →
     ((exFv dir idx v).map Prod.fst).Nodup
